@@ -4,7 +4,9 @@ repository's whole unedited test suite; record the summary line in meta.json (su
 import glob, json, os, subprocess, sys, tempfile, time
 VERIF = os.path.dirname(os.path.dirname(os.path.abspath(__file__)))
 jobs = sys.argv[1] if len(sys.argv) > 1 else "8"
-for mp in sorted(glob.glob(os.path.join(VERIF, "seeded", "*", "meta.json"))):
+shard, nshards = (int(sys.argv[2]), int(sys.argv[3])) if len(sys.argv) > 3 else (0, 1)  # several instances side by side
+todo = [mp for mp in sorted(glob.glob(os.path.join(VERIF, "seeded", "*", "meta.json"))) if not json.load(open(mp)).get("suite_summary")]
+for mp in todo[shard::nshards]:
     meta = json.load(open(mp))
     if meta.get("suite_summary"):
         continue
